@@ -422,6 +422,130 @@ theorem roleSum_restrict (d : Decl) (sel gsel : List Nat) (hm : d.mem.length = d
     unfold reindex
     exact getD_map_nat _ 0 sel k hk
 
+/-- the values at the holders of a kept group, read in the part alone, are the values read in
+    the whole population, up to order -/
+theorem holderVals_perm (d : Decl) (sel gsel : List Nat) (hm : d.mem.length = d.nP) (hcl : Closed d sel gsel)
+    (r : Nat) (x : Val) (j : Nat) (hj : j < gsel.length) :
+    (holderVals (restrict d sel gsel) r (reindex sel x) j).Perm (holderVals d r x (gsel.getD j 0)) := by
+  have hgj : gsel.getD j 0 ∈ gsel := by
+    simp [List.getD_eq_getElem?_getD, List.getElem?_eq_getElem hj]
+  unfold holderVals
+  have hlen : (restrict d sel gsel).mem.length = sel.length := by simp [restrict]
+  rw [hlen, hm]
+  have hpos := positions_to_elements sel
+    (fun i => decide (d.mem.getD i 0 = gsel.getD j 0 ∧ (r = 9 ∨ d.roles.getD i 0 = r))) (fun i => x.getD i 0)
+    (fun k => decide ((restrict d sel gsel).mem.getD k 0 = j ∧ (r = 9 ∨ (restrict d sel gsel).roles.getD k 0 = r)))
+    (fun k => (reindex sel x).getD k 0) ?_ ?_
+  · rw [hpos]
+    apply List.Perm.map
+    have h := List.Perm.filter (fun i => decide (r = 9 ∨ d.roles.getD i 0 = r))
+      (closed_filter_perm d sel gsel hcl _ hgj)
+    rw [List.filter_filter, List.filter_filter] at h
+    have e : (fun i => decide (r = 9 ∨ d.roles.getD i 0 = r) && decide (d.mem.getD i 0 = gsel.getD j 0))
+        = (fun i => decide (d.mem.getD i 0 = gsel.getD j 0 ∧ (r = 9 ∨ d.roles.getD i 0 = r))) := by
+      funext i; rw [Bool.and_comm, Bool.decide_and]
+    rw [e] at h
+    exact h
+  · intro k hk
+    have hmem : sel.getD k 0 ∈ sel := by rw [getD_of_lt sel k hk]; exact List.getElem_mem hk
+    have hig : d.mem.getD (sel.getD k 0) 0 ∈ gsel := (hcl.2.2.2.2 _ (hcl.1 _ hmem)).1 hmem
+    have e1 : (restrict d sel gsel).mem.getD k 0 = posIn gsel (d.mem.getD (sel.getD k 0) 0) := by
+      simp only [restrict]; exact getD_map_nat _ 0 sel k hk
+    have e2 : (restrict d sel gsel).roles.getD k 0 = d.roles.getD (sel.getD k 0) 0 := by
+      simp only [restrict]; exact getD_map_nat _ 0 sel k hk
+    rw [e1, e2, decide_eq_decide, posIn_eq_iff gsel hcl.2.2.2.1 _ j hig hj]
+  · intro k hk
+    unfold reindex
+    exact getD_map_nat _ 0 sel k hk
+
+/-! ## the reductions do not depend on the order of their operands -/
+
+theorem foldl_max_spec : ∀ (t : List Int) (a : Int), t.foldl max a ∈ a :: t ∧ ∀ y ∈ a :: t, y ≤ t.foldl max a
+  | [], a => by simp
+  | b :: t, a => by
+    obtain ⟨h1, h2⟩ := foldl_max_spec t (max a b)
+    simp only [List.foldl_cons]
+    constructor
+    · rcases List.mem_cons.1 h1 with h | h
+      · rw [h]
+        rcases Int.le_total a b with hab | hab
+        · rw [Int.max_eq_right hab]; simp
+        · rw [Int.max_eq_left hab]; simp
+      · exact List.mem_cons_of_mem _ (List.mem_cons_of_mem _ h)
+    · intro y hy
+      have hm := h2 (max a b) List.mem_cons_self
+      rcases List.mem_cons.1 hy with h | h
+      · rw [h]; exact Int.le_trans (Int.le_max_left a b) hm
+      · rcases List.mem_cons.1 h with h | h
+        · rw [h]; exact Int.le_trans (Int.le_max_right a b) hm
+        · exact h2 y (List.mem_cons_of_mem _ h)
+
+theorem foldl_min_spec : ∀ (t : List Int) (a : Int), t.foldl min a ∈ a :: t ∧ ∀ y ∈ a :: t, t.foldl min a ≤ y
+  | [], a => by simp
+  | b :: t, a => by
+    obtain ⟨h1, h2⟩ := foldl_min_spec t (min a b)
+    simp only [List.foldl_cons]
+    constructor
+    · rcases List.mem_cons.1 h1 with h | h
+      · rw [h]
+        rcases Int.le_total a b with hab | hab
+        · rw [Int.min_eq_left hab]; simp
+        · rw [Int.min_eq_right hab]; simp
+      · exact List.mem_cons_of_mem _ (List.mem_cons_of_mem _ h)
+    · intro y hy
+      have hm := h2 (min a b) List.mem_cons_self
+      rcases List.mem_cons.1 hy with h | h
+      · rw [h]; exact Int.le_trans hm (Int.min_le_left a b)
+      · rcases List.mem_cons.1 h with h | h
+        · rw [h]; exact Int.le_trans hm (Int.min_le_right a b)
+        · exact h2 y (List.mem_cons_of_mem _ h)
+
+/-- the greatest element: attained, and an upper bound -/
+theorem listMax_spec (l : List Int) (hne : l ≠ []) : listMax l ∈ l ∧ ∀ y ∈ l, y ≤ listMax l := by
+  cases l with
+  | nil => exact absurd rfl hne
+  | cons a t => exact foldl_max_spec t a
+
+theorem listMin_spec (l : List Int) (hne : l ≠ []) : listMin l ∈ l ∧ ∀ y ∈ l, listMin l ≤ y := by
+  cases l with
+  | nil => exact absurd rfl hne
+  | cons a t => exact foldl_min_spec t a
+
+theorem perm_ne_nil {l l' : List Int} (hp : l.Perm l') (h : l ≠ []) : l' ≠ [] := by
+  intro h'
+  have := hp.length_eq
+  rw [h'] at this
+  exact h (List.length_eq_zero_iff.1 this)
+
+theorem listMax_perm {l l' : List Int} (hp : l.Perm l') : listMax l = listMax l' := by
+  by_cases h : l = []
+  · subst h
+    have : l' = [] := List.length_eq_zero_iff.1 hp.length_eq.symm
+    rw [this]
+  · have h' := perm_ne_nil hp h
+    obtain ⟨a1, a2⟩ := listMax_spec l h
+    obtain ⟨b1, b2⟩ := listMax_spec l' h'
+    exact Int.le_antisymm (b2 _ (hp.mem_iff.1 a1)) (a2 _ (hp.mem_iff.2 b1))
+
+theorem listMin_perm {l l' : List Int} (hp : l.Perm l') : listMin l = listMin l' := by
+  by_cases h : l = []
+  · subst h
+    have : l' = [] := List.length_eq_zero_iff.1 hp.length_eq.symm
+    rw [this]
+  · have h' := perm_ne_nil hp h
+    obtain ⟨a1, a2⟩ := listMin_spec l h
+    obtain ⟨b1, b2⟩ := listMin_spec l' h'
+    exact Int.le_antisymm (a2 _ (hp.mem_iff.2 b1)) (b2 _ (hp.mem_iff.1 a1))
+
+theorem listAll_perm {l l' : List Int} (hp : l.Perm l') : listAll l = listAll l' := by
+  unfold listAll
+  have : l.all (fun a => decide (a ≠ 0)) = l'.all (fun a => decide (a ≠ 0)) := by
+    rw [Bool.eq_iff_iff, List.all_eq_true, List.all_eq_true]
+    constructor
+    · intro h y hy; exact h y (hp.mem_iff.2 hy)
+    · intro h y hy; exact h y (hp.mem_iff.1 hy)
+  rw [this]
+
 /-- a group with exactly one holder of role `r`: the role-filtered sum is that holder's value -/
 theorem roleSum_unique (d : Decl) (r : Nat) (x : Val) (g i : Nat) (hi : i < d.mem.length)
     (hh : d.mem.getD i 0 = g ∧ d.roles.getD i 0 = r)
@@ -528,20 +652,21 @@ theorem f2_shape (o : Nat) :
   exact Or.inr (fun x y => by simp [f2, h0, h1, h2, h3, h4, h5, h6, h7, h8])
 
 theorem not_roleOp {o : Nat} (hr : isRoleOp o = false) :
-    ¬(10 ≤ o ∧ o < 20) ∧ ¬(20 ≤ o ∧ o < 30) ∧ ¬(30 ≤ o ∧ o < 40) ∧ ¬(40 ≤ o ∧ o < 50) := by
-  have : ¬(10 ≤ o ∧ o < 50) := by simpa [isRoleOp] using hr
+    ¬(10 ≤ o ∧ o < 20) ∧ ¬(20 ≤ o ∧ o < 30) ∧ ¬(30 ≤ o ∧ o < 40) ∧ ¬(40 ≤ o ∧ o < 50) ∧
+    ¬(50 ≤ o ∧ o < 60) ∧ ¬(60 ≤ o ∧ o < 70) ∧ ¬(70 ≤ o ∧ o < 80) := by
+  have : ¬(10 ≤ o ∧ o < 80) := by simpa [isRoleOp] using hr
   omega
 
 theorem f1_shape (o : Nat) (h1 : o ≠ 1) (h2 : o ≠ 2) (hr : isRoleOp o = false) :
     ∃ g : Int → Int, ∀ (d : Decl) (x : Val), f1 d o x = x.map g := by
-  obtain ⟨r1, r2, r3, r4⟩ := not_roleOp hr
+  obtain ⟨r1, r2, r3, r4, r5, r6, r7⟩ := not_roleOp hr
   by_cases h0 : o = 0
   · exact ⟨fun a => -a, fun d x => by simp [f1, h0]⟩
   by_cases h3 : o = 3
   · exact ⟨fun a => if a ≠ 0 then 1 else 0, fun d x => by simp [f1, h3]⟩
   by_cases h100 : 100 ≤ o
-  · exact ⟨fun a => a * ((o : Int) - 150), fun d x => by simp only [f1, h0, h1, h2, h3, r1, r2, r3, r4, h100, if_true, if_false]⟩
-  exact ⟨id, fun d x => by simp only [f1, h0, h1, h2, h3, r1, r2, r3, r4, h100, if_false, List.map_id]⟩
+  · exact ⟨fun a => a * ((o : Int) - 150), fun d x => by simp only [f1, h0, h1, h2, h3, r1, r2, r3, r4, r5, r6, r7, h100, if_true, if_false]⟩
+  exact ⟨id, fun d x => by simp only [f1, h0, h1, h2, h3, r1, r2, r3, r4, r5, r6, r7, h100, if_false, List.map_id]⟩
 
 theorem castTo_shape (t : VType) : ∃ g : Int → Int, ∀ x : Val, castTo t x = x.map g := by
   cases t
@@ -581,41 +706,46 @@ theorem f1_sim_pointwise {d : Decl} {sel gsel : List Nat} (hcl : Closed d sel gs
 
 /-- what a role operation computes for one group -/
 def roleFn (d : Decl) (o : Nat) (x : Val) (g : Nat) : Int :=
-  if o < 20 then roleSum d (o - 10) x g
-  else if o < 30 then roleSum d (o - 20) x g
-  else if o < 40 then roleSum d (o - 30) (List.replicate d.mem.length 1) g
-  else if roleSum d (o - 40) x g > 0 then 1 else 0
+  if 10 ≤ o ∧ o < 20 then roleSum d (o - 10) x g
+  else if 20 ≤ o ∧ o < 30 then roleSum d (o - 20) x g
+  else if 30 ≤ o ∧ o < 40 then roleSum d (o - 30) (List.replicate d.mem.length 1) g
+  else if 40 ≤ o ∧ o < 50 then (if roleSum d (o - 40) x g > 0 then 1 else 0)
+  else if 50 ≤ o ∧ o < 60 then listMax (holderVals d (o - 50) x g)
+  else if 60 ≤ o ∧ o < 70 then listMin (holderVals d (o - 60) x g)
+  else listAll (holderVals d (o - 70) x g)
 
 theorem f1_role (d : Decl) (o : Nat) (hr : isRoleOp o = true) (x : Val) :
     f1 d o x = (List.range d.nG).map (roleFn d o x) := by
-  have hb : 10 ≤ o ∧ o < 50 := by simpa [isRoleOp] using hr
+  have hb : 10 ≤ o ∧ o < 80 := by simpa [isRoleOp] using hr
   have h0 : o ≠ 0 := by omega
   have h1 : o ≠ 1 := by omega
   have h2 : o ≠ 2 := by omega
   have h3 : o ≠ 3 := by omega
   unfold f1
   simp only [h0, h1, h2, h3, if_false]
-  by_cases a : o < 20
-  · have c1 : 10 ≤ o ∧ o < 20 := ⟨hb.1, a⟩
-    simp only [c1, and_self, if_true]
-    apply List.map_congr_left; intro g _; simp [roleFn, a]
-  · by_cases b : o < 30
-    · have c1 : ¬(10 ≤ o ∧ o < 20) := by omega
-      have c2 : 20 ≤ o ∧ o < 30 := by omega
-      simp only [c1, c2, and_self, if_true, if_false]
-      apply List.map_congr_left; intro g _; simp [roleFn, a, b]
-    · by_cases c : o < 40
-      · have c1 : ¬(10 ≤ o ∧ o < 20) := by omega
-        have c2 : ¬(20 ≤ o ∧ o < 30) := by omega
-        have c3 : 30 ≤ o ∧ o < 40 := by omega
-        simp only [c1, c2, c3, and_self, if_true, if_false]
-        apply List.map_congr_left; intro g _; simp [roleFn, a, b, c]
-      · have c1 : ¬(10 ≤ o ∧ o < 20) := by omega
-        have c2 : ¬(20 ≤ o ∧ o < 30) := by omega
-        have c3 : ¬(30 ≤ o ∧ o < 40) := by omega
-        have c4 : 40 ≤ o ∧ o < 50 := by omega
-        simp only [c1, c2, c3, c4, and_self, if_true, if_false]
-        apply List.map_congr_left; intro g _; simp [roleFn, a, b, c]
+  by_cases c1 : 10 ≤ o ∧ o < 20
+  · rw [if_pos c1]; apply List.map_congr_left; intro g _; simp only [roleFn, if_pos c1]
+  rw [if_neg c1]
+  by_cases c2 : 20 ≤ o ∧ o < 30
+  · rw [if_pos c2]; apply List.map_congr_left; intro g _; simp only [roleFn, if_neg c1, if_pos c2]
+  rw [if_neg c2]
+  by_cases c3 : 30 ≤ o ∧ o < 40
+  · rw [if_pos c3]; apply List.map_congr_left; intro g _; simp only [roleFn, if_neg c1, if_neg c2, if_pos c3]
+  rw [if_neg c3]
+  by_cases c4 : 40 ≤ o ∧ o < 50
+  · rw [if_pos c4]; apply List.map_congr_left; intro g _; simp only [roleFn, if_neg c1, if_neg c2, if_neg c3, if_pos c4]
+  rw [if_neg c4]
+  by_cases c5 : 50 ≤ o ∧ o < 60
+  · rw [if_pos c5]; apply List.map_congr_left; intro g _
+    simp only [roleFn, if_neg c1, if_neg c2, if_neg c3, if_neg c4, if_pos c5]
+  rw [if_neg c5]
+  by_cases c6 : 60 ≤ o ∧ o < 70
+  · rw [if_pos c6]; apply List.map_congr_left; intro g _
+    simp only [roleFn, if_neg c1, if_neg c2, if_neg c3, if_neg c4, if_neg c5, if_pos c6]
+  rw [if_neg c6]
+  have c7 : 70 ≤ o ∧ o < 80 := by omega
+  rw [if_pos c7]; apply List.map_congr_left; intro g _
+  simp only [roleFn, if_neg c1, if_neg c2, if_neg c3, if_neg c4, if_neg c5, if_neg c6]
 
 theorem roleFn_restrict (d : Decl) (sel gsel : List Nat) (hm : d.mem.length = d.nP) (hcl : Closed d sel gsel)
     (o : Nat) (x : Val) (j : Nat) (hj : j < gsel.length) :
@@ -625,10 +755,13 @@ theorem roleFn_restrict (d : Decl) (sel gsel : List Nat) (hm : d.mem.length = d.
     simp [restrict]
   unfold roleFn
   rw [hrep]
-  simp only [roleSum_restrict d sel gsel hm hcl _ _ j hj]
+  simp only [roleSum_restrict d sel gsel hm hcl _ _ j hj,
+    listMax_perm (holderVals_perm d sel gsel hm hcl (o - 50) x j hj),
+    listMin_perm (holderVals_perm d sel gsel hm hcl (o - 60) x j hj),
+    listAll_perm (holderVals_perm d sel gsel hm hcl (o - 70) x j hj)]
 
 /-- the role operations (role-filtered sum, value of the unique-role member, number of role
-    holders, any) commute with a closed selection -/
+    holders, any, max, min, all) commute with a closed selection -/
 theorem f1_sim_role {d : Decl} {sel gsel : List Nat} (hm : d.mem.length = d.nP) (hcl : Closed d sel gsel)
     (o : Nat) (hr : isRoleOp o = true) (ent : Nat) (hent : ent ≠ 0) (x : Val) (hx : ID d (some 0) x) :
     ID d (some ent) (f1 d o x) ∧
